@@ -29,6 +29,7 @@ pub fn dispatch(cmd: &str, args: &Args) -> Option<i32> {
         "c05-random" => random(args),
         "c05-corpus" => corpus(args),
         "c05-redirect" => redirect(args),
+        "c05-convert" => convert(args),
         "c05-one" => one(args),
         _ => return None,
     })
@@ -653,6 +654,93 @@ fn corpus(args: &Args) -> i32 {
     }
     out.flush();
     eprintln!("c05-corpus: {used} fonts used, {skipped} skipped (not loadable without warnings / no lig table)");
+    0
+}
+
+// ------------------------------------------------------------------------------------------
+// c05-convert: property-list fonts converted in memory (`pl::File -> tfm::File`, which packs the
+// entry points and unpacks the kerns) and compiled with compile_from_tfm_file WITHOUT going
+// through bytes.  The specification is shown the font as TeX would read it from the file the
+// conversion serialises to (serialize + deserialize), plus `lbf`: the left-boundary entry point
+// field as the in-memory file carries it (an observation, used only by a named deviation).
+// ------------------------------------------------------------------------------------------
+fn convert(args: &Args) -> i32 {
+    quiet_panics();
+    let dir = args.req("dir");
+    let seed: u64 = args.num("seed", 1);
+    let npairs: usize = args.num("pairs", 30);
+    let nwalks: usize = args.num("walks", 30);
+    let batch: usize = args.num("batch", 60);
+    let mut out = Out::new(args.str("out"));
+    let subs = args.str("subdirs").unwrap_or("computer-modern,ctan,originals,fuzz").to_string();
+    let mut files: Vec<std::path::PathBuf> = vec![];
+    for sub in subs.split(',') {
+        if let Ok(rd) = std::fs::read_dir(std::path::Path::new(dir).join(sub)) {
+            for e in rd.flatten() {
+                let p = e.path();
+                if matches!(p.extension().and_then(|s| s.to_str()), Some("plst") | Some("pl")) {
+                    files.push(p);
+                }
+            }
+        }
+    }
+    files.sort();
+    let mut rng = Rng::new(seed ^ 0xC0DE);
+    let (mut used, mut skipped) = (0, 0);
+    for f in &files {
+        let name = format!("{}:converted", f.file_name().unwrap().to_string_lossy());
+        let loaded = catch(|| -> Option<(Value, CompiledProgram, Vec<InfiniteLoopError>, Program, BTreeMap<u8, u16>, BTreeSet<u8>)> {
+            let src = std::fs::read_to_string(f).ok()?;
+            let (pl, warnings) = tfm::pl::File::from_pl_source_code(&src);
+            if !warnings.is_empty() || pl.lig_kern_program.instructions.is_empty() {
+                return None;
+            }
+            let mut t: tfm::File = pl.into();
+            let lbf: i64 = t.lig_kern_program.left_boundary_char_entrypoint.map(|e| e as i64).unwrap_or(-1);
+            // the font file this conversion stands for, as a TFM reader sees it
+            let bytes = t.serialize();
+            let (rt, warnings) = tfm::File::deserialize(&bytes);
+            let rt = rt.ok()?;
+            if !warnings.is_empty() {
+                return None;
+            }
+            let mut probe = rt.clone();
+            if !probe.validate_and_fix().is_empty() {
+                return None;
+            }
+            let exists: BTreeSet<u8> = rt.char_dimens.keys().map(|c| c.0).collect();
+            let packed: BTreeMap<u8, u8> =
+                rt.lig_kern_entrypoints().into_iter().map(|(c, e)| (c.0, e)).collect();
+            let mut pj = program_json(&rt.lig_kern_program, &rt.kerns, rt.header.design_size, &packed, true);
+            pj["lbf"] = json!(lbf);
+            let mut prog = rt.lig_kern_program.clone();
+            let ep: BTreeMap<u8, u16> =
+                packed.iter().filter_map(|(c, e)| prog.unpack_entrypoint(*e).ok().map(|u| (*c, u))).collect();
+            // the code under test: compile the converted file as it is in memory
+            let (cp, errs) = CompiledProgram::compile_from_tfm_file(&mut t);
+            Some((pj, cp, errs, prog, ep, exists))
+        });
+        let (pj, cp, errs, prog, ep, exists) = match loaded {
+            Ok(Some(x)) => x,
+            Ok(None) => {
+                skipped += 1;
+                continue;
+            }
+            Err((site, msg)) => {
+                out.line(&json!({"p": {"ins": [], "ep": [], "packed": 0, "lbe": -1, "rbc": 256}, "tag": name,
+                                 "panic": [site, msg], "errs": [], "runs": []}));
+                continue;
+            }
+        };
+        used += 1;
+        let runs = corpus_runs(&mut rng, &prog, &ep, &exists, npairs, nwalks);
+        for chunk in runs.chunks(batch.max(1)) {
+            let rs: Vec<Value> = chunk.iter().map(|r| run_json(&cp, r)).collect();
+            out.line(&json!({"p": pj, "tag": name, "errs": errs_json(&errs), "runs": rs}));
+        }
+    }
+    out.flush();
+    eprintln!("c05-convert: {used} fonts used, {skipped} skipped");
     0
 }
 
